@@ -25,7 +25,14 @@ pub fn rmetro_write(fm: &FnMap, style: usize) -> String {
     let mut pcol = 0i128;
     let mut first = true;
     for (i, &(line, col, name)) in fm.entries.iter().enumerate() {
-        let new_group = i == 0 || line as i128 != pline;
+        // styles 4 and 5 separate "new ';' group" from "new line": every entry in a group of its own
+        // (the column restarts although the line may not change) / all entries in one group (the line
+        // changes although the column keeps running)
+        let new_group = match style {
+            4 => true,
+            5 => i == 0,
+            _ => i == 0 || line as i128 != pline,
+        };
         if new_group && !first {
             out.push(';');
             if style == 3 {
@@ -43,7 +50,7 @@ pub fn rmetro_write(fm: &FnMap, style: usize) -> String {
         let dname = name as i128 - pname;
         let dcol = col as i128 - pcol;
         let fields: Vec<i128> = match style {
-            0 => vec![dcol, dname, dline],
+            0 | 4 | 5 => vec![dcol, dname, dline],
             2 => {
                 if dline != 0 {
                     vec![dcol, dname, dline]
@@ -308,13 +315,13 @@ pub fn run(run: &mut Run) -> Finish {
         }
     }
     let nf = fms.len() as u64;
-    run.par_slice("function maps: every strictly increasing entry list of <= 5/9 entries over lines {1,2,4} x cols {0,4,9}, every name-index assignment over {0,1,2,3(out of range)}, 4 encodings, token grid of 31 original positions", 1, nf, |idx, l| {
+    run.par_slice("function maps: every strictly increasing entry list of <= 5/9 entries over lines {1,2,4} x cols {0,4,9}, every name-index assignment over {0,1,2,3(out of range)}, 6 encodings (incl. one group per entry and one group for all), token grid of 31 original positions", 1, nf, |idx, l| {
         let (pos, k) = &fms[(idx & 0xffff_ffff) as usize];
         let mut sub = 0u64;
         for na in 0..4u64.pow(*k as u32) {
             let names_idx = seq_of(na, 4, *k);
             let fm = fm_of(pos, &names_idx);
-            for style in 0..4 {
+            for style in 0..6 {
                 let c = Case { metas: vec![Meta::Fn(fm.clone(), style)], tokens: token_grid(0) };
                 if let Some((sig, what)) = check_case(&c) {
                     l.violation_sub(idx, sub, Viol::new(format!("C14/{sig}"), what, json!({"case": serde_json::to_value(&c).unwrap()})));
